@@ -25,6 +25,8 @@ def run(ctx):
         for cc in ('/usr/bin/gcc', '/usr/bin/clang'):
             res = sysmon.st.run_fault_histories(sysmon.sysroot(ctx, 'c09'), 'c09' + os.path.basename(cc), cc, ctx.seed * 13, nh if cc.endswith('gcc') else max(1, nh // 2), nr)
             sysmon.feed(ctx, res, findings, f'system faults {os.path.basename(cc)}')
+        res = sysmon.st.run_evict_undeletable(sysmon.sysroot(ctx, 'c09ev'), 'c09ev', '/usr/bin/gcc')
+        sysmon.feed(ctx, res, findings, 'system entry that cannot be evicted')
         # "... the cache being read-only ...": histories against a pre-populated read-only cache (half of them with damaged entries and a header
         # that uses __TIMESTAMP__, whose preprocessor-cache entries want rewriting); whether the cache stays unchanged is C15's business
         res = sysmon.st.run_readonly(sysmon.sysroot(ctx, 'c09ro'), 'c09ro', '/usr/bin/gcc', ctx.seed * 37, 3 if ctx.quick() else 12, 6 if ctx.quick() else 24)
